@@ -126,7 +126,7 @@ Definition ok5_ev (x : X5.xstate) (ev : list Z) : bool :=
   | c :: a =>
       if c <? 40 then ok_ev 4 (X5.x_cl x) ev && (if c =? 2 then fresh_blob x (hd 0 a) else true)
       else if c =? 40 then match a with _ :: _ :: _ :: _ => true | _ => false end
-      else if c =? 41 then match a with [n; _] => deliver_ok x n | _ => false end
+      else if c =? 41 then match a with [n; _; _] => deliver_ok x n | _ => false end
       else false
   end.
 
@@ -311,13 +311,27 @@ Proof.
   split; [apply rm_G; auto|]. split; [apply rm_low; auto|]. split; [exact D1|]. split; [exact D2|]. split; [exact A|exact B].
 Qed.
 
+(* the receiver is the addressed server, or the request is refused and nothing happens *)
+Lemma deliver_to_cases : forall x n f r,
+  fst (X5.step_deliver_to x n f r) = fst (X5.step_deliver x n f) \/ fst (X5.step_deliver_to x n f r) = X5.set_cl x (X5.x_cl x) \/
+  fst (X5.step_deliver_to x n f r) = x.
+Proof.
+  intros x n f r. unfold X5.step_deliver_to. destruct (nth_error (X5.x_soup x) (Z.to_nat n)) as [i|]; [|right; right; reflexivity].
+  destruct (r =? X5.i_ts i); [left; destruct (X5.step_deliver x n f); reflexivity | right; left; reflexivity].
+Qed.
+
+Lemma xinv_setcl_same : forall x, xinv x -> xinv (X5.set_cl x (X5.x_cl x)).
+Proof. intros x (GS & LS & D1 & D2 & A & B). split; [exact GS|]. split; [exact LS|]. split; [exact D1|]. split; [exact D2|]. split; [exact A|exact B]. Qed.
+
 Theorem xinv_step : forall x ev, ok5_ev x ev = true -> xinv x -> xinv (fst (X5.step x ev)).
 Proof.
   intros x ev OK I. destruct ev as [|c a]; [discriminate OK|].
   destruct (c <? 40) eqn:C. { apply xinv_cluster; auto. }
   unfold ok5_ev in OK. rewrite C in OK. unfold X5.step. rewrite C.
   destruct (c =? 40). { destruct a as [|a0 [|ts [|n r]]]; try discriminate OK. apply xinv_report; auto. }
-  destruct (c =? 41). { destruct a as [|n [|f [|z r]]]; try discriminate OK. apply xinv_deliver; auto. }
+  destruct (c =? 41).
+  { destruct a as [|n [|f [|rv [|z r]]]]; try discriminate OK.
+    destruct (deliver_to_cases x n f rv) as [E|[E|E]]; rewrite E; [apply xinv_deliver; auto | apply xinv_setcl_same; auto | exact I]. }
   discriminate OK.
 Qed.
 
